@@ -292,6 +292,8 @@ def marg_bits(rep, ex: Explorer):
                         unset = v
                 stored = ("storedrank", wv)
                 val = ev.value
+                undefined = d.get(("isnone", stored))
+                rep.check(undefined is False, "MARG.bits", f"{site}:{ev.node.lineno}", "only ranked worlds contribute", "a world contributes to its reduced world only when its own rank is defined", extracted=f"rank undefined: {undefined}", required="rank is not None", function=site)
                 if present is False or present is None or unset is True:
                     okv = isinstance(val, Sym) and val.label == stored
                     rep.check(okv, "MARG.bits", f"{site}:{ev.node.lineno}", "first extension", "the first extension of a reduced world contributes its own rank", extracted=repr(val), required="rank of the world", function=site)
@@ -407,6 +409,39 @@ def tpo_order(rep, ex: Explorer):
                     d.update(dict(case.guard))
                 isnone = d.get(("isnone", ("storedrank", wv)))
                 rep.check(isnone is False, "TPO.order", f"{site}:{ev.node.lineno}", "undefined ranks skipped", "worlds without a rank are not placed in a layer", extracted=f"isnone={isnone}", required="rank is not None", function=site)
+        # grouping: every ranked world is added to the group stored under its own rank; a group is created only when missing
+        cases = {}
+        for ev, Q in iter_events(p.events):
+            if not Q or Q[0][0].fam != WORLDS:
+                continue
+            wv = Q[0][0].evar
+            d = {}
+            for lp, case in Q:
+                d.update(dict(case.guard))
+            if d.get(("isnone", ("storedrank", wv))) is not False:
+                continue
+            present = None
+            for k, v in d.items():
+                if k[0] == "in" and k[1] == ("storedrank", wv):
+                    present = v
+            c = cases.setdefault(present, {"added": 0, "created": 0, "wv": wv})
+            own = ("storedrank", wv)
+            if ev.kind in ("call.method", "elem.mutate") and ev.data.get("method") == "add" and ev.data.get("args") and isinstance(ev.args[0], ElemV) and ev.args[0].var == wv:
+                tgt = ev.obj
+                if isinstance(tgt, Sym) and isinstance(tgt.label, tuple) and tgt.label[:1] == ("dictitem",) and tgt.label[2] == own:
+                    c["added"] += 1
+            if ev.kind == "list.append" and isinstance(ev.value, ElemV) and ev.value.var == wv:
+                c["added"] += 1
+            if ev.kind == "dict.set" and isinstance(ev.key, Sym) and ev.key.label == own:
+                c["created"] += 1
+        for present, c in cases.items():
+            if present is None:
+                continue
+            rep.check(c["added"] == 1, "TPO.order", site, f"world placed (group {'exists' if present else 'missing'})", "a ranked world is added (once) to the group kept under its own rank", extracted=f"{c['added']} addition(s)", required="1", function=site)
+            rep.check(c["created"] == (0 if present else 1), "TPO.order", site, f"group creation (group {'exists' if present else 'missing'})", "a group is created exactly when the rank has none yet (an existing group is never replaced)",
+                      extracted=f"{c['created']} creation(s)", required="0" if present else "1", function=site)
+        if True not in cases or False not in cases:
+            rep.violation("TPO.order", site, "grouping", "worlds are grouped by rank: the group of a rank is looked up, created when missing, and the world added", extracted=f"cases {sorted(map(str, cases))}", required="both cases (group exists / missing)", function=site)
     rep.floor("ranks2tpo paths", n, 1)
     # tpo2ranks: rank_function applied to the layer number, in order
     qual = "inference.preocf.tpo2ranks"
@@ -1024,6 +1059,10 @@ def format_agree(rep, ex: Explorer):
             accepts = set()
             for p in lpaths:
                 attempts = [(ev.kind, ev.how) for ev, Q in iter_events(p.events) if ev.kind in ("persist.load", "persist.loaded")]
+                if p.outcome[0] == "return" and any(k == "persist.loaded" for k, h in attempts):
+                    used = any((ev.kind == "attr.set" and ev.attr == "_impacts") or (ev.kind in ("call.method", "dict.update", "elem.mutate") and ev.data.get("method", "update") == "update")
+                               or ev.kind == "dict.update" for ev, Q in iter_events(p.events))
+                    rep.check(used, "FORMAT.agree", site_l, f"{what}: name {name!r}: loaded data used", "what was read from the file becomes the object's data", extracted="stored" if used else "read and dropped", required="stored", function=site_l)
                 ok_loaded = [h for k, h in attempts if k == "persist.loaded"]
                 tried = [h for k, h in attempts if k == "persist.load"]
                 if ok_loaded:
@@ -1041,10 +1080,17 @@ def format_agree(rep, ex: Explorer):
 
                 spaths = ex.run(saver, setup_s, summaries=_summ(), key=f"save-{what}-{name}-{fmt}")
                 wrote = set()
+                silent_return = False
                 for p in spaths:
+                    dumped = False
                     for ev, Q in iter_events(p.events):
                         if ev.kind == "persist.dump":
                             wrote.add("json" if ev.how.startswith("json") else "pickle")
+                            dumped = True
+                    if p.outcome[0] == "return" and not dumped:
+                        silent_return = True
+                if silent_return:
+                    rep.violation("FORMAT.agree", site_s, f"{what}: name {name!r}, fmt={fmt}: nothing written", "a save that returns normally has written the data", extracted="returns without a dump", required="one dump", function=site_s)
                 if not wrote:
                     continue
                 n += 1
